@@ -224,6 +224,55 @@ def disturb(ctx, lang, loc):
         ctx.count("victim_checks")
 
 
+MENTION_LANGS = ["fr", "de", "es", "ru", "th", "it", "nl", "pl", "pt", "tr", "id", "sv", "ja", "hu", "fi"]
+
+
+def run_mentions(ctx):
+    """Settings with the same effective values that differ in WHICH keys the caller wrote: {'DATE_ORDER': 'MDY'} (an explicit
+    order that happens to equal the default), {'NORMALIZE': True}, {} / no settings.  The explicit one must read numeric dates
+    as MDY in every language, the others in the locale's own order -- for long-lived parsers too, whatever other calls with
+    look-alike settings are made in between."""
+    import dateparser
+    from dateparser.date import DateDataParser
+
+    spellings = [{"DATE_ORDER": "MDY"}, {"NORMALIZE": True}, {"PREFER_DATES_FROM": "current_period", "DATE_ORDER": "MDY"}, None,
+                 {"PREFER_DATES_FROM": "current_period"}]
+    s, (y, a, b) = "02/03/2015", (2015, 2, 3)
+    for lang in MENTION_LANGS:
+        lo = vocab.locale_info(lang, lang).get("date_order", "MDY")
+        if lo not in ("DMY", "MDY", "YMD"):
+            continue
+        by_locale = {"DMY": datetime(y, b, a), "MDY": datetime(y, a, b), "YMD": None}[lo]
+        if by_locale is None:
+            continue
+        live = [DateDataParser(languages=[lang], settings=sp) if sp is not None else DateDataParser(languages=[lang])
+                for sp in spellings]
+        for rnd_i in range(3):
+            order = list(range(len(spellings)))
+            order = order[rnd_i:] + order[:rnd_i]
+            for i in order:
+                sp = spellings[i]
+                exp = datetime(y, a, b) if sp and "DATE_ORDER" in sp else by_locale
+                for how in ("long-lived", "function"):
+                    try:
+                        if how == "function":
+                            r = dateparser.parse(s, languages=[lang], settings=sp) if sp is not None else \
+                                dateparser.parse(s, languages=[lang])
+                        else:
+                            r = live[i].get_date_data(s)["date_obj"]
+                    except Exception as e:
+                        r = e
+                    ctx.ran()
+                    if r != exp:
+                        ctx.violation({"kind": "mention", "lang": lang, "settings_as_written": sp, "how": how, "round": rnd_i,
+                                       "string": s, "locale_order": lo}, r, exp, "explicit-order" if sp and "DATE_ORDER" in sp
+                                      else "locale-order", {"kind": "mention", "lang": lang, "how": how,
+                                                            "explicit": bool(sp and "DATE_ORDER" in sp)})
+                        return
+                    ctx.count("mention_ok:%s" % how)
+                    ctx.nontrivial("mention", lang, repr(sp), how, rnd_i)
+
+
 def run_shard(ctx, desc):
     import dateparser  # noqa
 
@@ -240,6 +289,8 @@ def run_shard(ctx, desc):
                         for (y, m, d) in [(1100, 9, 30), (1, 1, 1), (9999, 12, 31), (2000, 2, 29), (999, 12, 31), (1200, 5, 6)]:
                             check_explicit(ctx, {"kind": "explicit", "order": o, "y": y, "m": m, "d": d, "sep": sep,
                                                  "pad": True, "tsuf": "", "lang": "en", "pl": True})
+            if desc["i"] == 1:
+                run_mentions(ctx)
             for _ in range(desc["n"]):
                 check_explicit(ctx, gen_explicit(rnd))
         else:
@@ -281,6 +332,9 @@ def replay_case(ctx, v):
         for lg, lc in all_locales():
             if lc == c["after"]:
                 disturb(ctx, lg, lc)
+        return
+    if c["kind"] == "mention":
+        run_mentions(ctx)
         return
     if c["kind"] == "explicit":
         check_explicit(ctx, c)
